@@ -195,6 +195,8 @@ class Fragment:
         return self.content[index]
 
     def maybe_child(self, index: int) -> Optional["Node"]:
+        if index < 0:
+            return None
         try:
             return self.content[index]
         except IndexError:
